@@ -53,6 +53,13 @@ impl GenCfg {
 
 // ------------------------------------------------------------------ expressions
 
+/// Weighted choice that drops zero-weight options (proptest's unions either
+/// reject them or may still reach them while shrinking).
+fn weighted<T: std::fmt::Debug + 'static>(opts: Vec<(u32, BoxedStrategy<T>)>) -> BoxedStrategy<T> {
+    let opts: Vec<(u32, BoxedStrategy<T>)> = opts.into_iter().filter(|(w, _)| *w > 0).collect();
+    proptest::strategy::Union::new_weighted(opts).boxed()
+}
+
 fn pick<T: Clone + std::fmt::Debug + 'static>(items: &'static [T]) -> impl Strategy<Value = T> {
     (0..items.len()).prop_map(move |i| items[i].clone())
 }
@@ -109,14 +116,14 @@ fn cmp_op() -> impl Strategy<Value = BinOp> {
 /// Well-typed numeric expression. `rnd`: RND(1) may appear. `ill`: weight
 /// (out of 1000) of a string leaf where a number is needed.
 pub fn num_expr(depth: u32, rnd: bool, ill: u32) -> BoxedStrategy<Expr> {
-    let leaf = prop_oneof![
-        2000 => num_literal(),
-        2000 => pick(NUM_VARS).prop_map(|v| Expr::var(v)),
-        800 => cell_of(NUM_ARRAYS).prop_map(|(n, i)| Expr::Cell(n, i)),
-        400 => (str_atom(), cmp_op(), str_atom()).prop_map(|(a, o, b)| Expr::bin(o, a, b)),
-        if rnd { 200 } else { 0 } => pick(&[1.0f64, 1.0, 0.0, 5.0]).prop_map(|x| Expr::Rnd(Box::new(Expr::Num(x)))),
-        ill => str_atom(),
-    ];
+    let leaf = weighted(vec![
+        (2000, num_literal().boxed()),
+        (2000, pick(NUM_VARS).prop_map(|v| Expr::var(v)).boxed()),
+        (800, cell_of(NUM_ARRAYS).prop_map(|(n, i)| Expr::Cell(n, i)).boxed()),
+        (400, (str_atom(), cmp_op(), str_atom()).prop_map(|(a, o, b)| Expr::bin(o, a, b)).boxed()),
+        (if rnd { 200 } else { 0 }, pick(&[1.0f64, 1.0, 0.0, 5.0]).prop_map(|x| Expr::Rnd(Box::new(Expr::Num(x)))).boxed()),
+        (ill, str_atom()),
+    ]);
     leaf.prop_recursive(depth, 24, 3, |inner| {
         prop_oneof![
             8 => (pick(&[BinOp::Add, BinOp::Sub, BinOp::Mul]), inner.clone(), inner.clone()).prop_map(|(o, l, r)| Expr::bin(o, l, r)),
@@ -269,18 +276,17 @@ fn failing_stmt() -> BoxedStrategy<Stmt> {
 
 /// A simple (non-IF, non-REM, non-DATA, non-DEF) statement usable anywhere,
 /// including as the THEN statement of an IF with ELSE.
-fn simple_stmt(cfg: GenCfg) -> BoxedStrategy<Stmt> {
-    prop_oneof![
-        100 => let_stmt(cfg),
-        100 => print_stmt(cfg),
-        15 => read_stmt(cfg),
-        5 => Just(Stmt::Restore),
-        12 => dim_stmt(),
-        cfg.error_weight => failing_stmt(),
-        if cfg.allow_input { 40 } else { 0 } => prop_oneof![lvalue_num(), lvalue_str()].prop_map(Stmt::Input),
-        if cfg.allow_stop { 10 } else { 0 } => Just(Stmt::Stop),
-    ]
-    .boxed()
+pub fn simple_stmt(cfg: GenCfg) -> BoxedStrategy<Stmt> {
+    weighted(vec![
+        (100, let_stmt(cfg)),
+        (100, print_stmt(cfg)),
+        (15, read_stmt(cfg)),
+        (5, Just(Stmt::Restore).boxed()),
+        (12, dim_stmt()),
+        (cfg.error_weight, failing_stmt()),
+        (if cfg.allow_input { 40 } else { 0 }, prop_oneof![lvalue_num(), lvalue_str()].prop_map(Stmt::Input).boxed()),
+        (if cfg.allow_stop { 10 } else { 0 }, Just(Stmt::Stop).boxed()),
+    ])
 }
 
 // ------------------------------------------------------------------ blocks
@@ -352,35 +358,60 @@ fn for_header(cfg: GenCfg) -> impl Strategy<Value = (usize, Expr, Expr, Option<E
 
 fn leaf_block(cfg: GenCfg) -> BoxedStrategy<Block> {
     let thenable = simple_stmt(cfg);
-    prop_oneof![
-        14 => prop::collection::vec(simple_stmt(cfg), 1..4).prop_map(Block::Simple),
-        1 => "[ -~]{0,12}".prop_map(Block::Rem),
-        4 => prop::collection::vec(data_item(), 1..8).prop_map(Block::Data),
-        2 => (0..FUNCS.len(), 0u32..10).prop_flat_map(move |(f, _)| {
-            let body = if FUNCS[f].0.ends_with('$') { str_atom() } else { num_expr(3, cfg.allow_rnd, 2) };
-            body.prop_map(move |b| Block::Def(f, b))
-        }),
-        6 => (cond_expr(cfg.allow_rnd, cfg.error_weight / 3), thenable.clone(), prop::option::weighted(0.6, else_stmt(cfg)), prop::collection::vec(simple_stmt(cfg), 0..3))
-            .prop_map(|(cond, then, els, rest)| Block::IfLine { cond, then, els, rest }),
-        2 => (cond_expr(false, 0), thenable.clone(), cond_expr(false, 0), thenable.clone(), prop::option::weighted(0.7, thenable.clone()))
-            .prop_map(|(a, s1, b, s2, s3)| Block::IfChain { a, s1, b, s2, s3 }),
-        4 => (cond_expr(cfg.allow_rnd, 0), 0u8..5, 0u8..4, prop::option::weighted(0.3, 0u8..5))
-            .prop_map(|(cond, hops, form, else_hops)| Block::IfSkip { cond, hops, form, else_hops }),
-        1 => (0u8..4).prop_map(|hops| Block::Skip { hops }),
-        4 => (0usize..4, 0u8..4, cond_expr(false, 0)).prop_map(|(sub, wrap, cond)| Block::Gosub { sub, wrap, cond }),
-        if cfg.allow_suspending_then_with_else { 2 } else { 0 } => (cond_expr(false, 0), 0u8..8, simple_stmt(cfg))
-            .prop_map(move |(cond, w, els)| {
-                let mut allowed = vec![0u8, 1, 4, 5];
-                if cfg.allow_input { allowed.push(2); allowed.push(6); }
-                if cfg.allow_stop { allowed.push(3); }
-                let which = allowed[(w as usize) % allowed.len()];
-                Block::SuspendingThen { cond, which, els }
-            }),
-        1 => pick(&[2u8, 5, 31, 32, 33, 40]).prop_map(|n| Block::Recurse { n }),
-        1 => Just(Block::End),
-        if cfg.allow_wild { 1 } else { 0 } => (0u8..6).prop_map(|hops| Block::WildBack { hops }),
-    ]
-    .boxed()
+    weighted(vec![
+        (14, prop::collection::vec(simple_stmt(cfg), 1..4).prop_map(Block::Simple).boxed()),
+        (1, "[ -~]{0,12}".prop_map(Block::Rem).boxed()),
+        (4, prop::collection::vec(data_item(), 1..8).prop_map(Block::Data).boxed()),
+        (
+            2,
+            (0..FUNCS.len())
+                .prop_flat_map(move |f| {
+                    let body = if FUNCS[f].0.ends_with('$') { str_atom() } else { num_expr(3, cfg.allow_rnd, 2) };
+                    body.prop_map(move |b| Block::Def(f, b))
+                })
+                .boxed(),
+        ),
+        (
+            6,
+            (cond_expr(cfg.allow_rnd, cfg.error_weight / 3), thenable.clone(), prop::option::weighted(0.6, else_stmt(cfg)), prop::collection::vec(simple_stmt(cfg), 0..3))
+                .prop_map(|(cond, then, els, rest)| Block::IfLine { cond, then, els, rest })
+                .boxed(),
+        ),
+        (
+            2,
+            (cond_expr(false, 0), thenable.clone(), cond_expr(false, 0), thenable.clone(), prop::option::weighted(0.7, thenable.clone()))
+                .prop_map(|(a, s1, b, s2, s3)| Block::IfChain { a, s1, b, s2, s3 })
+                .boxed(),
+        ),
+        (
+            4,
+            (cond_expr(cfg.allow_rnd, 0), 0u8..5, 0u8..4, prop::option::weighted(0.3, 0u8..5))
+                .prop_map(|(cond, hops, form, else_hops)| Block::IfSkip { cond, hops, form, else_hops })
+                .boxed(),
+        ),
+        (1, (0u8..4).prop_map(|hops| Block::Skip { hops }).boxed()),
+        (4, (0usize..4, 0u8..4, cond_expr(false, 0)).prop_map(|(sub, wrap, cond)| Block::Gosub { sub, wrap, cond }).boxed()),
+        (
+            if cfg.allow_suspending_then_with_else { 2 } else { 0 },
+            (cond_expr(false, 0), 0u8..8, simple_stmt(cfg))
+                .prop_map(move |(cond, w, els)| {
+                    let mut allowed = vec![0u8, 1, 4, 5];
+                    if cfg.allow_input {
+                        allowed.push(2);
+                        allowed.push(6);
+                    }
+                    if cfg.allow_stop {
+                        allowed.push(3);
+                    }
+                    let which = allowed[(w as usize) % allowed.len()];
+                    Block::SuspendingThen { cond, which, els }
+                })
+                .boxed(),
+        ),
+        (1, pick(&[2u8, 5, 31, 32, 33, 40]).prop_map(|n| Block::Recurse { n }).boxed()),
+        (1, Just(Block::End).boxed()),
+        (if cfg.allow_wild { 1 } else { 0 }, (0u8..6).prop_map(|hops| Block::WildBack { hops }).boxed()),
+    ])
 }
 
 /// ELSE statements may be anything simple, a GOTO-like line number is added at layout.
